@@ -127,11 +127,11 @@ SUITES = {
             ('lint_l1800', _l1800, 'the path from linter to reported lints; typer in between',
              'random placement-valid bodies (depth <= 4): exactly one L1800 per braced branch whose first statement is loop, none otherwise')],
     'C07': [('operators_and_calls', _types, 'the typer (unification, Autocoerce insertion)',
-             'every binary/comparison/unary operator x 15 operand types (identical pairs; 6 random mixed pairs per operator); calls with 0..3 parameters: exact, one argument dropped, one added, one mistyped, & missing; literal operands; all casts; sized-array pointers'),
+             'every binary/comparison/unary operator x 15 operand types (identical pairs; 6 random mixed pairs per operator); calls with 0..3 parameters: exact, one argument dropped, one added, one mistyped, & missing; literal operands; all 169 casts; sized-array pointers; assignments through member/element chains (about 729 programs)'),
             ('typing_of_members_and_addresses', _types_extra, 'typer: typing of structure literal members, of assignments through member/element chains, of address depth',
              '5 single programs, one obligation each: a structure literal member of another type (2), an excess address on an argument, well-typed assignments to an element of an array member and to a member of an array element')],
     'C08': [('mutating_uses', _mut, 'the whole-program consequence; the typer',
-             '7 kinds of target x (assignment, address handed to a writing callee in 12 expression/statement contexts); & missing on pointer arguments')],
+             '78 programs: 7 kinds of target x (assignment, address handed to a writing callee in 12 expression/statement contexts); whole-aggregate copies (E531-E533); local slices; elements/members of constants and of by-value word parameters; & missing on pointer arguments')],
     'C09': [('literal_range_lints', _literals, 'alpha parser (minus folding, signed/bit split), typer literal typing',
              '10 integer types x ~14 boundary values x up to 5 spellings x (typed by declaration, typed by suffix); 3 literals beyond 128 bits'),
             ('invalid_lexemes_rejected', _lexd_invalid, 'which escapes, quotes and suffixes the lexers reject',
@@ -147,7 +147,7 @@ SUITES = {
             ('permutation_invariance', _invariance, 'scoper name resolution (use_struct/use_constant), declaration sorting',
              'modules of 2..6 declarations drawn from 15 templates (constants, structures, functions; shared names across namespaces, missing dependencies, duplicates): every one of 8 (thorough: all) permutations accepted or rejected alike')],
     'C12': [('module_visibility', _modules, 'expand() (import fix-point), path resolution in context',
-             '18 module sets of 2..4 files (public/private function, constant, structure; direct, missing, transitive, diamond imports; relative paths; look-alike file names) x file orders')],
+             '25 module sets of 2..4 files (public/private function, constant, structure, opaque structure; direct, missing, transitive, diamond, duplicate, mutual and late imports; relative paths; look-alike file names) x file orders')],
     'C13': [('determinism', _determinism, 'HashMap/HashSet iteration order in scoper/typer/expander',
              'invalid and valid samples of the repository plus 4 constructed multi-error modules, each compiled in 3 (thorough: 5) fresh processes'),
             ('diagnostic_locations', _locations, 'alpha parser span bookkeeping (location_of_span, combined_with call sites), error.rs',
